@@ -46,6 +46,48 @@ def canon_cond(text, pol):
             return text[:i] + '==' + text[i + 2:], not pol
     return text, pol
 
+def _split_top(text, op):
+    parts = []; depth = 0; cur = ''; i = 0
+    while i < len(text):
+        ch = text[i]
+        if ch in '([{': depth += 1
+        elif ch in ')]}': depth -= 1
+        if depth == 0 and text.startswith(op, i):
+            parts.append(cur); cur = ''; i += len(op); continue
+        cur += ch; i += 1
+    parts.append(cur)
+    return parts
+
+def eval_cond(text, assume):
+    """three-valued value of a condition text under assumptions on atomic condition texts (None = unknown).
+    Needed where the CFG merges a short-circuit chain into one value before branching, e.g. if (!(a && b && c))"""
+    text = text.strip()
+    if text in assume: return assume[text]
+    ct, pol = canon_cond(text, True)
+    if ct in assume: return assume[ct] if pol else not assume[ct]
+    # balanced outer parentheses
+    if text.startswith('(') and text.endswith(')'):
+        depth = 0
+        for i, ch in enumerate(text):
+            if ch == '(': depth += 1
+            elif ch == ')':
+                depth -= 1
+                if depth == 0 and i < len(text) - 1: break
+        else:
+            return eval_cond(text[1:-1], assume)
+        if depth == 0 and i == len(text) - 1: return eval_cond(text[1:-1], assume)
+    for op, absorbing in (('||', True), ('&&', False)):
+        parts = _split_top(text, op)
+        if len(parts) > 1:
+            vals = [eval_cond(p_, assume) for p_ in parts]
+            if any(v is absorbing for v in vals): return absorbing
+            if all(v is (not absorbing) for v in vals): return not absorbing
+            return None
+    if text.startswith('!') and not text.startswith('!='):
+        v = eval_cond(text[1:], assume)
+        return None if v is None else (not v)
+    return None
+
 class Fn:
     def __init__(self, d, tu):
         self.d = d; self.tu = tu
@@ -74,11 +116,12 @@ class Fn:
             succ = blk['succ']
             if blk.get('leave') in ('throw', 'noreturn'):
                 continue
-            if 'ccond' in blk and blk['ccond'] in assume and len(succ) == 2:
-                val = assume[blk['ccond']] if blk['cpol'] else not assume[blk['ccond']]
-                nxt = [succ[0] if val else succ[1]]
-            else:
-                nxt = succ
+            nxt = succ
+            if 'ccond' in blk and assume and len(succ) == 2:
+                v = eval_cond(blk['ccond'], assume)
+                if v is not None:
+                    val = v if blk['cpol'] else not v
+                    nxt = [succ[0] if val else succ[1]]
             for s in nxt:
                 if s is not None and s >= 0:
                     stack.append(s)
